@@ -96,6 +96,10 @@ func C18(p *core.Program, r *core.Report) {
 		"floor(r/2) is treated as an opaque term s with r' = r - s and block = s (so r' + block = r)",
 		"a node holding a single copy transmits only by direct delivery, which bypasses the algorithm (C13/5)")
 
+	// the initial budget is set once per bundle (a second announcement of a
+	// held bundle would refresh it)
+	checkNotifyOnce(p, r)
+
 	g := newGuardedEngine(p)
 	n := g.checkGuarded(r, sprayGuarded, true)
 	r.Min("accesses to spray bundleData", 8)
@@ -177,7 +181,7 @@ func C18(p *core.Program, r *core.Report) {
 					for _, name := range []string{bp7 + ".BinarySprayBlock.SetCopies", bp7 + ".NewBinarySprayBlock"} {
 						for _, c := range core.CallsTo(fn, name) {
 							nCarry++
-							if core.CallArgs(c)[0] != half {
+							if core.Arg(c, 0) != half {
 								okCarry = false
 							}
 						}
